@@ -171,6 +171,12 @@ static void do_record(uint64_t seed, long long n) {
       double lat = g.uni(-85, 88), lon = g.uni(-180, 180);
       int zin = -99; bool nin = false; double x = 0, y = 0;
       string f0 = guarded([&] { UTMUPS::Forward(lat, lon, zin, nin, x, y, UTMUPS::STANDARD); });
+      // one time in three give the UTM input in the other hemisphere's convention (false northing shifted by 10000 km), where that is in range
+      bool flipped = false;
+      if (f0 == "ok" && zin > 0 && g.range(0, 2) == 0) {
+        double y2 = y + (nin ? 1 : -1) * UTMUPS::UTMShift();
+        if (nin ? (y2 >= 900e3 && y2 <= 19600e3) : (y2 >= -9100e3 && y2 <= 9600e3)) { y = y2; nin = !nin; flipped = true; }
+      }
       int zout = int(g.range(-3, 60)); if (g.coin() && zin > 0) zout = max(1, min(60, zin + int(g.range(-1, 1))));
       bool nout = g.range(0, 3) == 0 ? !nin : nin;
       double xo = vt::sentinel(1), yo = vt::sentinel(2); int zo = -99;
@@ -186,7 +192,7 @@ static void do_record(uint64_t seed, long long n) {
       Rec r; r.str("e", "tr").i("zin", zin).b("nin", nin).i("zout", zout).b("nout", nout).str("f0", f0).str("out", tres).str("ref", rres);
       long long err = -1;
       if (tres == "ok" && rres == "ok") { long double d = hypotl((long double)xo - xr, (long double)yo - yr) * 1e9L; err = d > 2e9L ? 2000000000LL : (long long) ceill(d); }
-      r.i("zo", zo).i("zr", zr).i("err", err).b("untouched", vt::is_sentinel(xo, 1) && vt::is_sentinel(yo, 2) && zo == -99);
+      r.i("zo", zo).i("zr", zr).i("err", err).b("untouched", vt::is_sentinel(xo, 1) && vt::is_sentinel(yo, 2) && zo == -99).b("flipped", flipped);
       r.emit();
     }
   }
